@@ -373,6 +373,75 @@ func errorLine(text, e string) string {
 	return ""
 }
 
+// reclassify gives the three format/API limits their own, narrow signatures (each needs the
+// shape named here, anything else keeps its generic signature and stays a violation)
+func reclassify(fs map[string]string, bus *acmelib.Bus, pb lib.PBus) map[string]string {
+	res := map[string]string{}
+	for sig, d := range fs {
+		switch {
+		case strings.HasPrefix(sig, "c11-import-refuses-export") && strings.Contains(d, "can id error") && strings.Contains(d, "is duplicated"):
+			seen := map[int64]bool{}
+			dup := false
+			for _, m := range pb.Msgs {
+				if seen[m.CANID] {
+					dup = true
+				}
+				seen[m.CANID] = true
+			}
+			if dup {
+				sig = "c11-can-id-clash-refused"
+			}
+		case strings.HasPrefix(sig, "c11-import-refuses-export") && (strings.Contains(d, "greater then") || strings.Contains(d, "lower then")):
+			if hasNegativeHex(bus, pb) {
+				sig = "c11-hex-attribute-negative-bound"
+			}
+		case strings.HasSuffix(sig, "-attrs") || sig == "c11-attrs" || sig == "c11-nodes":
+			if hasNegativeHex(bus, pb) && strings.Contains(d, "/1/") {
+				sig = "c11-hex-attribute-negative-bound"
+			}
+		case sig == "c11-messages-receivers-#len" || sig == "c11-messages-receivers":
+			// only when the message concerned has no signal to carry the receivers
+			for _, m := range pb.Msgs {
+				if len(m.Sigs) == 0 && len(m.Receivers) > 0 && strings.Contains(d, "["+m.Name+"]") {
+					sig = "c11-receivers-without-signals"
+				}
+			}
+		}
+		res[sig] = d
+	}
+	return res
+}
+
+func hasNegativeHex(bus *acmelib.Bus, pb lib.PBus) bool {
+	neg := func(l []lib.PAsg) bool {
+		for _, a := range l {
+			if a.Def.Kind == 1 && a.Def.Hex && a.Def.Mn < 0 {
+				return true
+			}
+		}
+		return false
+	}
+	if neg(pb.Attrs) {
+		return true
+	}
+	for _, n := range pb.Nodes {
+		if neg(n.Attrs) {
+			return true
+		}
+	}
+	for _, m := range pb.Msgs {
+		if neg(m.Attrs) {
+			return true
+		}
+		for _, s := range m.Sigs {
+			if neg(s.Attrs) {
+				return true
+			}
+		}
+	}
+	return false
+}
+
 func busSize(pb lib.PBus) int {
 	n := len(pb.Nodes)
 	for _, m := range pb.Msgs {
@@ -414,12 +483,11 @@ func main() {
 		sum.Cases++
 		pb := lib.WalkBus(bus)
 		why := expressible(bus, pb)
-		// the original bus has to satisfy the invariants the importer's result is compared under
-		for _, s := range vinv.CheckBus(bus) {
-			if why == "" {
-				why = "original-breaks-invariant"
-			}
-			_ = s
+		// the original bus is checked with the shared invariant evaluators as well: a broken original is
+		// reported (it is the library's public API that built it), never used to discard the case
+		origBroken := vinv.CheckBus(bus)
+		for _, m := range pb.Msgs {
+			origBroken = append(origBroken, vinv.CheckMessageLayout(m.Msg)...)
 		}
 		for k, v := range tags {
 			sum.Hist[k] += v
@@ -447,9 +515,17 @@ func main() {
 		}
 		if why != "" {
 			sum.NotExpressible[why]++
-			continue
+		} else {
+			sum.Expressible++
 		}
-		sum.Expressible++
+		for _, s := range origBroken {
+			c := s
+			if i := strings.Index(s, ":"); i > 0 {
+				c = s[:i]
+			}
+			fs["c11-original-"+strings.ReplaceAll(c, "/", "-")] = "the bus built through the public API breaks an invariant before export: " + s
+		}
+		fs = reclassify(fs, bus, pb)
 		nsig := 0
 		for _, m := range pb.Msgs {
 			nsig += len(m.Sigs)
